@@ -367,3 +367,24 @@ def _invalidation(model, rep, mod, ci):
     ok = set(CACHES) <= cleared
     rep.ob('cache-invalidation', mod, cc, 'clearcache resets %s' % ', '.join(CACHES), ok,
            '' if ok else 'clearcache leaves %s populated' % ', '.join(sorted(set(CACHES) - cleared)), engine='flow')
+
+
+OC = 'onsager/OnsagerCalc.py'
+BREAKERS = [
+    (OC, "        return L0vv.copy(), D0ss + L1ss, D0sv + L1sv, D0vv + D2vv + L1vv", "        return L0vv, D0ss + L1ss, D0sv + L1sv, D0vv + D2vv + L1vv", 'return-escape'),
+    (OC, "        D2vv = D0ss.copy()", "        D2vv = D0ss", 'write-through'),
+    (OC, "            Gfull = G.copy()", "            Gfull = G", 'write-through'),
+    (OC, "        return L0vv.copy(), D0ss + L1ss, D0sv + L1sv, D0vv + D2vv + L1vv", "        return self.Lvvvalues[vTK], D0ss + L1ss, D0sv + L1sv, D0vv + D2vv + L1vv", 'return-escape'),
+    (OC, "        bFV -= bFVmin\n", "        bFV = eneV\n        bFV -= bFVmin\n", 'write-through'),
+    (OC, "        if Nthermo == getattr(self, 'Nthermo', 0): return", "        if getattr(self, 'Nthermo', 0) > 0: return", None),
+    (OC, "        etav = self.etavvalues.get(vTK)\n", "        etav = self.GFcalc.biascorrection()\n", 'state-dominated-by-SetRates'),
+    (OC, "            self.Lvvvalues[vTK] = L0vv\n", "            self.Lvvvalues[0] = L0vv\n", 'cache-key-coherence'),
+    (OC, "        return hash(self.pre.data.tobytes() + self.betaene.data.tobytes() +", "        return hash(np.round(self.pre, 6).data.tobytes() + self.betaene.data.tobytes() +", 'cache-key-exact-hash'),
+    (OC, "        # empty dictionaries to store GF values\n        self.clearcache()\n", "", 'cache-invalidation'),
+    ('onsager/GFcalc.py', "        self.symmrate = self.SymmRates(pre, betaene, preT, betaeneT)\n", "        if getattr(self, 'lastpre', None) is pre: return\n        self.lastpre = pre\n        self.symmrate = self.SymmRates(pre, betaene, preT, betaeneT)\n",
+     'memo-key-complete'),
+]
+NEUTRALS = [
+    (OC, "        D2vv = D0ss.copy()", "        D2vv = np.array(D0ss)"),
+    (OC, "            self.GFvalues[vTK] = GF.copy()", "            self.GFvalues[vTK] = GF"),
+]
